@@ -251,11 +251,216 @@ func (p *Pool) Put(x any) {
 	p.items = append(p.items, poolItem{x, obj})
 }
 
-// Unsupported members keep the real implementation (they are not scheduling
-// points; the rewriter counts their uses as uninstrumented).
-type (
-	Cond = sync.Cond
-	Map  = sync.Map
-)
+// ---- Cond
+//
+// Wait releases L, parks the goroutine until a Signal or Broadcast picks it,
+// and re-acquires L. There are no spurious wake-ups (sync.Cond has none
+// either); a Wait that nobody signals is a deadlock of the execution.
 
-func NewCond(l Locker) *Cond { return sync.NewCond(l) }
+type condWaiter struct {
+	woken bool
+	obj   vrt.SyncObj
+}
+
+type Cond struct {
+	L       Locker
+	real    *sync.Cond
+	waiters []*condWaiter
+}
+
+func NewCond(l Locker) *Cond { return &Cond{L: l} }
+
+func (c *Cond) realCond() *sync.Cond {
+	if c.real == nil {
+		c.real = sync.NewCond(c.L)
+	}
+	return c.real
+}
+
+func (c *Cond) Wait() {
+	if !vrt.Active() {
+		c.realCond().Wait()
+		return
+	}
+	vrt.SyncPoint("Cond.Wait")
+	w := &condWaiter{}
+	c.waiters = append(c.waiters, w)
+	c.L.Unlock()
+	vrt.Block("Cond.Wait", func() bool { return w.woken })
+	vrt.Acquire(&w.obj)
+	c.L.Lock()
+}
+
+func (c *Cond) Signal() {
+	if !vrt.Active() {
+		c.realCond().Signal()
+		return
+	}
+	vrt.SyncPoint("Cond.Signal")
+	if len(c.waiters) > 0 {
+		w := c.waiters[0]
+		c.waiters = c.waiters[1:]
+		vrt.Release(&w.obj)
+		w.woken = true
+	} else {
+		vrt.Observe(4)
+	}
+}
+
+func (c *Cond) Broadcast() {
+	if !vrt.Active() {
+		c.realCond().Broadcast()
+		return
+	}
+	vrt.SyncPoint("Cond.Broadcast")
+	for _, w := range c.waiters {
+		vrt.Release(&w.obj)
+		w.woken = true
+	}
+	vrt.Observe(uint64(len(c.waiters)) + 8)
+	c.waiters = nil
+}
+
+// ---- Map
+//
+// The real sync.Map holds the data (one goroutine runs at a time); every
+// operation is a scheduling point, a store publishes the storing goroutine's
+// history for that key and a load that finds the key acquires it.
+
+type Map struct {
+	real sync.Map
+	objs map[interface{}]*vrt.SyncObj
+}
+
+func (m *Map) obj(k interface{}) *vrt.SyncObj {
+	if m.objs == nil {
+		m.objs = map[interface{}]*vrt.SyncObj{}
+	}
+	o := m.objs[k]
+	if o == nil {
+		o = &vrt.SyncObj{}
+		m.objs[k] = o
+	}
+	return o
+}
+
+func (m *Map) Load(key interface{}) (interface{}, bool) {
+	if !vrt.Active() {
+		return m.real.Load(key)
+	}
+	vrt.SyncPoint("Map.Load")
+	v, ok := m.real.Load(key)
+	if ok {
+		vrt.Acquire(m.obj(key))
+	} else {
+		vrt.Observe(5)
+	}
+	return v, ok
+}
+
+func (m *Map) Store(key, value interface{}) {
+	if !vrt.Active() {
+		m.real.Store(key, value)
+		return
+	}
+	vrt.SyncPoint("Map.Store")
+	vrt.Publish(m.obj(key))
+	m.real.Store(key, value)
+	vrt.Yield("after Map.Store")
+}
+
+func (m *Map) LoadOrStore(key, value interface{}) (interface{}, bool) {
+	if !vrt.Active() {
+		return m.real.LoadOrStore(key, value)
+	}
+	vrt.SyncPoint("Map.LoadOrStore")
+	actual, loaded := m.real.LoadOrStore(key, value)
+	if loaded {
+		vrt.Acquire(m.obj(key))
+	} else {
+		vrt.Publish(m.obj(key))
+	}
+	vrt.Observe(b2u(loaded))
+	if !loaded {
+		vrt.Yield("after Map.LoadOrStore")
+	}
+	return actual, loaded
+}
+
+func (m *Map) LoadAndDelete(key interface{}) (interface{}, bool) {
+	if !vrt.Active() {
+		return m.real.LoadAndDelete(key)
+	}
+	vrt.SyncPoint("Map.LoadAndDelete")
+	v, ok := m.real.LoadAndDelete(key)
+	if ok {
+		vrt.Acquire(m.obj(key))
+		vrt.Publish(m.obj(key))
+	} else {
+		vrt.Observe(6)
+	}
+	return v, ok
+}
+
+func (m *Map) Delete(key interface{}) { m.LoadAndDelete(key) }
+
+func (m *Map) Swap(key, value interface{}) (interface{}, bool) {
+	if !vrt.Active() {
+		return m.real.Swap(key, value)
+	}
+	vrt.SyncPoint("Map.Swap")
+	prev, loaded := m.real.Swap(key, value)
+	if loaded {
+		vrt.Acquire(m.obj(key))
+	}
+	vrt.Publish(m.obj(key))
+	vrt.Observe(b2u(loaded))
+	return prev, loaded
+}
+
+func (m *Map) CompareAndSwap(key, old, new interface{}) bool {
+	if !vrt.Active() {
+		return m.real.CompareAndSwap(key, old, new)
+	}
+	vrt.SyncPoint("Map.CompareAndSwap")
+	vrt.Acquire(m.obj(key))
+	ok := m.real.CompareAndSwap(key, old, new)
+	if ok {
+		vrt.Publish(m.obj(key))
+	}
+	vrt.Observe(b2u(ok))
+	return ok
+}
+
+func (m *Map) CompareAndDelete(key, old interface{}) bool {
+	if !vrt.Active() {
+		return m.real.CompareAndDelete(key, old)
+	}
+	vrt.SyncPoint("Map.CompareAndDelete")
+	vrt.Acquire(m.obj(key))
+	ok := m.real.CompareAndDelete(key, old)
+	if ok {
+		vrt.Publish(m.obj(key))
+	}
+	vrt.Observe(b2u(ok))
+	return ok
+}
+
+func (m *Map) Range(f func(key, value interface{}) bool) {
+	if !vrt.Active() {
+		m.real.Range(f)
+		return
+	}
+	vrt.SyncPoint("Map.Range")
+	m.real.Range(func(k, v interface{}) bool {
+		vrt.Acquire(m.obj(k))
+		return f(k, v)
+	})
+}
+
+func b2u(b bool) uint64 {
+	if b {
+		return 1
+	}
+	return 0
+}
